@@ -283,6 +283,8 @@ R.contract(
     raises=["OSError"],
     ensures_exc=[("fails-only-on-write-through",
                   "feature_guard != False and not present(ctx_LOG_MUX) and len(fs_writes) == 0")],
+    # defensive handlers: in the model ContextVar.get(), the local import and LogMux.write (a list append) never raise
+    unreachable_ok=["mux = None", "pass"],
 )
 
 # ------------------------------------------------------------------ clematis/engine/util/logmux.py
@@ -328,4 +330,6 @@ R.contract(MUX + "write_or_buffer", "C16", callee=False,
                      "   " + MUXBUF + "[len(" + MUXBUF + ") - 1][0] == stream and enc_eq(" + MUXBUF + "[len(" + MUXBUF + ") - 1][1], obj), "
                      "   len(aj_calls) == 1 and aj_calls[0][0] == stream and enc_eq(aj_calls[0][1], obj) and " + MUX_SAME + ")")],
            raises=["OSError"],
-           ensures_exc=[("fails-only-without-mux", "not present(ctx_LOG_MUX) and len(aj_calls) == 0")])
+           ensures_exc=[("fails-only-without-mux", "not present(ctx_LOG_MUX) and len(aj_calls) == 0")],
+           # defensive handlers: ContextVar.get() and LogMux.write (a list append) never raise in the model
+           unreachable_ok=["mux = None", "pass"])
